@@ -33,7 +33,7 @@ def op(draw, kinds=MUTATORS, default=0):
     if k == "populate":
         o["plan"] = draw(st.lists(st.sampled_from(["leave", "assign", "assign", "acc", "default", "writethendefault"]),
                                   min_size=1, max_size=5))
-        o["descend"] = draw(st.lists(st.booleans(), min_size=1, max_size=3))
+        o["descend"] = draw(st.lists(st.sampled_from(["descend", "descend", "skip", "reserve"]), min_size=1, max_size=3))
         o["src"] = draw(gen.trees([6, 6, 6], default, max_elems=3))   # cut to the needed depth/shape when used
     if k == "assign":
         o["src"] = draw(gen.trees([6, 6, 6], default, max_elems=3))
@@ -385,6 +385,7 @@ class Machine:
                 "tree": tree}
         src = build.build_tensor(spec, "ref").getRoot() if o["mode"] % 2 == 0 else build.build_fiber(spec)
         plan = Plan(o["plan"], o["descend"], o["val"], self.default)
+        plan.shape = list(self.shape[lvl:])
         stats = {"offered": 0, "written": 0, "removed": 0}
         run_populate(f, src, plan, d, (), stats, on_yield=None)
         return ("ok", stats)
@@ -403,7 +404,15 @@ class Plan:
         return self.leaf_actions[self.key(pt) % len(self.leaf_actions)]
 
     def descend(self, pt):
-        return self.descend_flags[self.key(pt) % len(self.descend_flags)]
+        """True / "descend": nested populate; False / "skip": leave the offered sub-fiber alone;
+        "reserve": the body creates structure below the offered sub-fiber through getPayloadRef
+        without writing a non-default value"""
+        f = self.descend_flags[self.key(pt) % len(self.descend_flags)]
+        if f is True:
+            return "descend"
+        if f is False:
+            return "skip"
+        return f
 
     def value(self, pt):
         v = self.val + self.key(pt) % 3
@@ -438,5 +447,15 @@ def run_populate(z, a, plan, d, prefix, stats, on_yield=None, writes=None, offer
             if act in ("assign", "acc"):
                 stats["written"] += 1
         else:
-            if plan.descend(pt):
+            what = plan.descend(pt)
+            if what == "descend":
                 run_populate(z_ref, a_val, plan, d - 1, pt, stats, on_yield, writes, offered)
+            elif what == "reserve":
+                # reserve a path below the offered sub-fiber (a prefix, or a full point left at the default)
+                shp = getattr(plan, "shape", None)
+                below = tuple((plan.key(pt) + i) % (shp[len(pt) + i] if shp else 2) for i in range(d - 1))
+                n = 1 + plan.key(pt) % (d - 1)
+                z_ref.getPayloadRef(*below[:n])       # (never written: an existing value there stays)
+                stats["reserved"] = stats.get("reserved", 0) + 1
+                if writes is not None:
+                    writes.append((pt, "reserve", below[:n]))
